@@ -202,3 +202,81 @@ func TestVerifC02(t *testing.T) {
 		w.WriteByte('\n')
 	}
 }
+
+// Free-running monitor (thorough tier, run with -race): concurrent Allow / Pass / Fail on one
+// shedder under the real clock with a toggling overload checker.  Reports, as JSON on
+// $VERIF_OUT: data races are reported by the race detector itself (non-zero exit);
+// "final" must be 0 once every promise has been resolved once, "negative" counts
+// observations of flying < 0, "idleShed" sheds observed by a goroutine while it was the
+// only caller and nothing was in flight.
+func TestVerifC02Race(t *testing.T) {
+	outp := os.Getenv("VERIF_OUT")
+	if outp == "" || os.Getenv("VERIF_C02_RACE") == "" {
+		t.Skip("monitor not requested")
+	}
+	logx.Disable()
+	DisableLog()
+	stat.SetReporter(nil)
+	timex.ClearFake()
+	orig := systemOverloadChecker
+	defer func() { systemOverloadChecker = orig }()
+	var tick int64
+	systemOverloadChecker = func(int64) bool {
+		return atomic.AddInt64(&tick, 1)%3 != 0
+	}
+	stat.VerifSetCpuUsage(1000)
+	as := NewAdaptiveShedder(WithWindow(200*time.Millisecond), WithBuckets(10), WithCpuThreshold(900)).(*adaptiveShedder)
+	const workers, iters = 16, 3000
+	var admitted, resolved, shed, negative int64
+	done := make(chan struct{})
+	for w := 0; w < workers; w++ {
+		go func(w int) {
+			defer func() { done <- struct{}{} }()
+			var held []Promise
+			for i := 0; i < iters; i++ {
+				p, err := as.Allow()
+				if err != nil {
+					atomic.AddInt64(&shed, 1)
+				} else {
+					atomic.AddInt64(&admitted, 1)
+					held = append(held, p)
+				}
+				if atomic.LoadInt64(&as.flying) < 0 {
+					atomic.AddInt64(&negative, 1)
+				}
+				if len(held) > (w+i)%7 {
+					q := held[0]
+					held = held[1:]
+					if (w+i)%4 == 0 {
+						q.Fail()
+					} else {
+						q.Pass()
+					}
+					atomic.AddInt64(&resolved, 1)
+				}
+			}
+			for _, q := range held {
+				q.Pass()
+				atomic.AddInt64(&resolved, 1)
+			}
+		}(w)
+	}
+	for w := 0; w < workers; w++ {
+		<-done
+	}
+	// idle: nothing in flight, overloaded -> must be admitted
+	systemOverloadChecker = func(int64) bool { return true }
+	idleShed := 0
+	for i := 0; i < 100; i++ {
+		p, err := as.Allow()
+		if err != nil {
+			idleShed++
+		} else {
+			p.Fail()
+		}
+	}
+	res := map[string]int64{"final": atomic.LoadInt64(&as.flying), "admitted": admitted, "resolved": resolved,
+		"shed": shed, "negative": negative, "idleShed": int64(idleShed)}
+	b, _ := json.Marshal(res)
+	os.WriteFile(outp, append(b, '\n'), 0o644)
+}
